@@ -24,7 +24,7 @@ import (
 )
 
 type instr struct {
-	op    string // bump | set | req | throw
+	op    string // bump | set | req | throw | lazy | call
 	k, v  int
 	req   string
 	catch bool
@@ -46,6 +46,10 @@ func coqInstr(i instr) string {
 		return fmt.Sprintf("ISet %d%%nat %d%%nat", i.k, i.v)
 	case "req":
 		return fmt.Sprintf("IReq %s %s", lib.ZsStr(i.req), lib.Bool(i.catch))
+	case "lazy":
+		return "ILazy " + lib.ZsStr(i.req)
+	case "call":
+		return "ICall " + lib.ZsStr(i.req)
 	default:
 		return fmt.Sprintf("IThrow %d%%nat", i.k)
 	}
@@ -93,6 +97,11 @@ func render(path string, e fentry, pkgText map[string]string) []byte {
 				fmt.Fprintf(&sb, "exports.k%d = %d;\n", i.k, i.v)
 			case "req":
 				sb.WriteString(reqJS("__filename", i.req, i.catch))
+			case "lazy": // a function defined HERE that requires when somebody calls it: the request belongs to this file
+				sb.WriteString("(exports.__lz = exports.__lz || []).push(function(){ " + strings.TrimSpace(reqJS("__filename", i.req, true)) + " });\n")
+			case "call":
+				fmt.Fprintf(&sb, "(function(){ var t; try { t = require(%s) } catch (e) { __log.push([__filename, %s, __err(e)]); return } __log.push([__filename, %s, __ok(t)]); (t && t.__lz || []).slice().forEach(function(f){ f() }) })();\n",
+					jsq(i.req), jsq(i.req), jsq(i.req))
 			case "throw":
 				fmt.Fprintf(&sb, "__throws.push([__filename, %d, __log.length]); throw __thrown(%d);\n", i.k, i.k)
 			}
@@ -358,8 +367,12 @@ func main() {
 				files["/vr/app/m/node_modules/lib.js"] = jsmod()
 				files["/vr/app/m/w.js"] = jsmod(instr{op: "req", req: "lib", catch: true})
 			}
-			files["/vr/app/node_modules/x/y.js"] = jsmod(instr{op: "req", req: "m", catch: true})
-			files["/vr/app/sub/z.js"] = jsmod(instr{op: "req", req: "m", catch: true}, instr{op: "req", req: "../m", catch: true}, instr{op: "req", req: "./m", catch: true})
+			// functions that require lazily, defined in one directory and called while a module of another directory is being
+			// evaluated (and later from the top level): the request is resolved against the DEFINING file's directory
+			files["/vr/app/node_modules/x/y.js"] = jsmod(instr{op: "lazy", req: "m"}, instr{op: "lazy", req: "./m"}, instr{op: "req", req: "m", catch: true})
+			files["/vr/app/sub/z.js"] = jsmod(instr{op: "lazy", req: r.Pick([]string{"./m", "m", "../m"})}, instr{op: "lazy", req: "./m/lib"}, instr{op: "req", req: "m", catch: true}, instr{op: "req", req: "../m", catch: true}, instr{op: "req", req: "./m", catch: true})
+			files["/vr/c.js"] = jsmod(instr{op: "call", req: "./app/sub/z"}, instr{op: "call", req: "./app/node_modules/x/y"}, instr{op: "call", req: "./app/sub/z.js"})
+			files["/vr/app/c2.js"] = jsmod(instr{op: "call", req: "x/y"}, instr{op: "req", req: "./m", catch: true}, instr{op: "call", req: "./sub/z"})
 			// drop package.json "main" cases whose target is missing (Node throws, the library keeps searching: outside the claim)
 			for p, e := range files {
 				if e.kind == "pkg" && e.main != "" {
@@ -376,7 +389,8 @@ func main() {
 					}
 				}
 			}
-			reqs := []string{"./m", "m", "/vr/app/m", "../app/m", "./m.js", "./m/lib", "m/lib", "m/lib", "./m/w", "./m/w.js", "./sub/z", "x/y", "./sub/../m", "/vr/app/sub/m", "./nothing", "nothing", "./m/index"}
+			reqs := []string{"./m", "m", "/vr/app/m", "../app/m", "./m.js", "./m/lib", "m/lib", "m/lib", "./m/w", "./m/w.js", "./sub/z", "x/y", "./sub/../m", "/vr/app/sub/m", "./nothing", "nothing", "./m/index",
+				"/vr/c", "/vr/c.js", "/vr/app/c2", "/vr/c"}
 			ncalls := 2 + r.Intn(5)
 			// the directory a "main" names, required on its own first: what that request resolved to must not answer the probe of the outer main
 			if _, has := files["/vr/app/m/lib/package.json"]; has && r.Chance(60) {
